@@ -381,7 +381,7 @@ def replay_plan(rng, clear_p=0.12):
             body += run_block()
         # work between / after runs: what is cached here must not reach back into the closed run
         if rng.random() < 0.6:
-            body += [M("null")] * rng.choice([1, 2])
+            body += [M("null") for _ in range(rng.choice([1, 2]))]
         if rng.random() < 0.2:
             body += [M("sleep", None, 1)]
         body += extras() if rng.random() < 0.3 else []
